@@ -352,6 +352,8 @@ where
         }
 
         let value = match (values, inline_binary) {
+            // no value: an empty sequence if SQ, an empty primitive value otherwise
+            (None, None) if vr == VR::SQ => Value::Sequence(Vec::new().into()),
             (None, None) => PrimitiveValue::Empty.into(),
             (None, Some(inline_binary)) => {
                 // decode from Base64
